@@ -101,6 +101,11 @@ def instances(prop: str, tier: str, rng: random.Random) -> list[dict]:
                 payloads += [bytes([fill]) * run + rb(rng, 30), rb(rng, 30) + bytes([fill]) * run]
         for p in payloads:
             add("b64", p, base64.b64encode(p))
+        # exactly six distinct alphabet characters plus padding (seven distinct in all: accepted), and the same without padding (six: rejected)
+        for t in (b"ABCDEFABCDEFABCDEFABEA==", b"ABCDEFABCDEFABCDEFABCDE=", b"abcdeZabcdeZabcdeZabcdeZabcdeQ==", b"ABCDEFABCDEFABCDEFABCDEF", b"0a1b2c0a1b2c0a1b2c0a1b2g=="):
+            pp = base64.b64decode(t)
+            if base64.b64encode(pp) == t:
+                add("b64", pp, t)
         for sep in (b"\n", b"\r\n", b"\r", b"&#13;&#10;", b"&#10;", b"&#13;\n", b"&#xD;\r\n", b"<\x00  \x00", b"<\x00  \x00\r\n"):
             for width in (4, 16, 64, 76):
                 for n in (17, 48, 57, 100):
@@ -124,6 +129,9 @@ def instances(prop: str, tier: str, rng: random.Random) -> list[dict]:
                 for _ in range(2 if not big else 8):
                     p = rb(rng, n)
                     add("hex", p, hexenc(p, upper), opts={"dq": False, "upper": upper})
+        for pd in (b"0123456789", b"12345678901234", b"0000000000", b"9" * 16):      # payloads whose hexadecimal form has no letter at all
+            for upper in (False, True):
+                add("hex", pd, hexenc(pd, upper), opts={"dq": False, "upper": upper})
         for nd in (4, 9, 10, 11, 12):
             p = bytes(int(rng.choice("0123456789") + rng.choice("0123456789"), 16) for _ in range(nd)) + bytes([0xAB, 0xCD, 0xEF, 0xFA]) * 3
             for upper in (False, True):
@@ -175,6 +183,8 @@ def instances(prop: str, tier: str, rng: random.Random) -> list[dict]:
                     parts.append(rb(rng, rng.randint(1, 3), TEXT.replace(b"'", b"")))
             esc = b"".join(parts)
             add("unescape", b"", b"unescape('" + esc + b"')", escaped=b2l(esc))
+        for esc in (b'%3Ciframe src="http://a.example.com/"%3E', b'a"b', b'"', b'""', b'say "%68%69"', b"x`y", b"(%29)", b"a\\b%5C"):
+            add("unescape", b"", b"unescape('" + esc + b"')", escaped=b2l(esc))
         ok16 = [c for c in range(256) if c > 8 and not 14 <= c <= 31 and not 127 <= c <= 159]
         for a, b, c in ((7, 7, 0), (7, 6, 0), (9, 12, 8), (8, 8, 7)):
             p = rb(rng, a, ok16) + b"\0" + rb(rng, b, ok16) + ((b"\0" + rb(rng, c, ok16)) if c else b"")
@@ -196,6 +206,9 @@ def instances(prop: str, tier: str, rng: random.Random) -> list[dict]:
             return rb(rng, rng.randint(0, maxn), lit_alpha)
 
         seps = [b"+", b"&", b"&amp;", b" + ", b" & ", b" &amp; ", b"\t+\n", b" _\r\n& ", b"+ _\n", b"  +", b"&  "]
+        for k in (9, 10, 11, 14, 20, 33):       # long chains (every joint is removed, however many there are)
+            for sep in (b" + ", b"&", b" &amp; "):
+                add("concat", b"", sep.join(lit(bytes([97 + j % 26]) * (1 + j % 3)) for j in range(k)))
         for _ in range(400 if not big else 6000):
             k = rng.randint(2, 5)
             blob = lit(body())
